@@ -62,7 +62,7 @@ def plan(tier, seed):
 # pool of related programs
 
 L = ['la', 'lb', 'fade', 'cafe']         # two of them spelled with hex letters only
-K = ['KA', 'KB', 'ADC0', 'BEEF']
+K = ['KA', 'KB', 'ADC0', 'BEEF', 'add', 'li']             # ... and two that are also mnemonics
 
 
 def pool_programs(r):
